@@ -9,6 +9,7 @@ import (
 
 	g "github.com/zenon-network/go-zenon/chain/genesis/mock"
 	"github.com/zenon-network/go-zenon/chain/nom"
+	"github.com/zenon-network/go-zenon/common"
 	"github.com/zenon-network/go-zenon/common/types"
 	"github.com/zenon-network/go-zenon/verifier"
 	"github.com/zenon-network/go-zenon/vm"
@@ -98,7 +99,7 @@ func RandomCall(rng *rand.Rand, from types.Address, tokens []types.ZenonTokenSta
 		}
 		return []types.ZenonTokenStandard{types.ZnnTokenStandard, types.QsrTokenStandard}[rng.Intn(2)]
 	}
-	switch rng.Intn(22) {
+	switch rng.Intn(24) {
 	case 0, 1, 2: // issue
 		total := big.NewInt(int64(rng.Intn(5000)))
 		max := new(big.Int).Add(total, big.NewInt(int64((rng.Intn(4)+2)/3)*int64(1+rng.Intn(20000))))
@@ -191,6 +192,20 @@ func RandomCall(rng *rand.Rand, from types.Address, tokens []types.ZenonTokenSta
 	case 19:
 		return Call{"pillar.Delegate", types.PillarContract, types.ZnnTokenStandard, big.NewInt(0),
 			definition.ABIPillars.PackMethodPanic(definition.DelegateMethodName, []string{g.Pillar1Name, g.Pillar2Name, "nobody"}[rng.Intn(3)])}
+	case 22: // pillar registration without the QSR deposit: accepted when sent, fails when received; the 15000 ZNN have to
+		// come back out of what the call itself brought, not out of the collateral the contract holds for the genesis pillars
+		return Call{"pillar.Register", types.PillarContract, types.ZnnTokenStandard, new(big.Int).Set(constants.PillarStakeAmount),
+			definition.ABIPillars.PackMethodPanic(definition.RegisterMethodName, "plr-"+string(rune('a'+rng.Intn(26))), users[rng.Intn(len(users))], from, uint8(rng.Intn(101)), uint8(rng.Intn(101)))}
+	case 23: // a hash-time-lock that is valid when sent and already expired when received (refund out of a contract that holds others' deposits), or a plain valid one
+		var lock [32]byte
+		rng.Read(lock[:])
+		exp := time.Now().Unix()
+		if common.Clock != nil {
+			exp = common.Clock.Now().Unix()
+		}
+		exp += []int64{1, 5, 9, 11, 15, 400}[rng.Intn(6)]
+		return Call{"htlc.Create", types.HtlcContract, []types.ZenonTokenStandard{types.ZnnTokenStandard, types.QsrTokenStandard}[rng.Intn(2)], zexp(int64(1 + rng.Intn(20))),
+			definition.ABIHtlc.PackMethodPanic(definition.CreateHtlcMethodName, users[rng.Intn(len(users))], exp, uint8(0), uint8(32), lock[:])}
 	case 20: // unknown selector
 		d := make([]byte, 4+rng.Intn(40))
 		rng.Read(d)
